@@ -217,12 +217,27 @@ func (s *ReverseSuffixSearcher) Find(haystack []byte) *Match {
 
 	// Try each suffix candidate left-to-right until we find a valid match.
 	// This ensures leftmost semantics for multi-wildcard patterns.
+	//
+	// Anti-quadratic guard (same as IsMatch/FindAt): once the candidate ending at
+	// minStart has been rejected, a later reverse scan that is still alive when it
+	// reaches minStart would re-read bytes an earlier scan already covered. With
+	// many false-positive candidates that is O(n^2), so SearchReverseLimited stops
+	// there and a single forward PikeVM search answers the whole query instead.
+	minStart := 0
 	pos := firstPos
 	for pos >= 0 && pos+s.suffixLen <= len(haystack) {
 		revEnd := pos + s.suffixLen
 
 		// Use reverse DFA to find match START position
-		matchStart := s.reverseDFA.SearchReverse(revCache, haystack, 0, revEnd)
+		matchStart := s.reverseDFA.SearchReverseLimited(revCache, haystack, 0, revEnd, minStart)
+		if matchStart == lazy.SearchReverseLimitedQuadratic {
+			start, end, found := s.pikevm.Search(haystack)
+			if found {
+				return NewMatch(start, end, haystack)
+			}
+			return nil
+		}
+		minStart = revEnd
 		if matchStart >= 0 {
 			// Forward verification: get correct greedy match end.
 			matchEnd := s.forwardDFA.SearchAt(fwdCache, haystack, matchStart)
